@@ -32,6 +32,9 @@ CHECKS = {
     "C19": ("exploration", "reference-model differential: random module trees on disk, real ModuleLoader (ASan) vs a reference implementation of the documented resolution algorithm",
             "For every generated tree/entry/search-path/cwd configuration the merged class and function order, or the diagnostic kind and category, equals the documented algorithm's.",
             "Reference implements docs/language/semantics.md + language-guide.md; three undocumented corner cases kept out.", "DESIGN.md 3/C19"),
+    "C07": ("exploration", "reference-interpreter differential: type-directed generated programs run on the ASan+UBSan CLI, stdout / first runtime error (kind, line) compared with an independent interpreter written from the docs",
+            "Every generated program over the documented classical core printed exactly what the reference interpreter computed, or raised the runtime error it predicted at the same line.",
+            "Reference = vlib/gen_classical.py; ranges where the docs do not fix the result are kept out and listed in the evidence.", "DESIGN.md 3/C07"),
 }
 
 NOT_YET = {}
